@@ -2,7 +2,7 @@
    rendered result.  All rendering is Gallina, so modeld.ml has no per-function glue. *)
 From Coq Require Import String.
 From Coq Require Import List Strings.Byte NArith ZArith Bool.
-Require Import Bytes Show Tables Codec Norm CleanPath.
+Require Import Bytes Show Tables Codec Norm CleanPath Chain.
 Import ListNotations.
 
 Definition arg (args : list bs) (i : nat) : bs := nth i args [].
@@ -22,7 +22,8 @@ Definition entries : list (bs * (list bs -> bs)) := [
   (B "args_reencode", fun a => match args_parse (arg a 0) with Some l => encode l | None => B "FUEL" end);
   (B "args_encode", fun a => encode (pairs_kv a));
   (B "normalize_path", fun a => show_obs (normalize_path (arg a 0)));
-  (B "clean_path", fun a => show_obs (clean_path (arg a 0)))
+  (B "clean_path", fun a => show_obs (clean_path (arg a 0)));
+  (B "run_chain", fun a => run_chain a)
 ].
 
 Fixpoint lookup (cmd : bs) (l : list (bs * (list bs -> bs))) : option (list bs -> bs) :=
